@@ -52,7 +52,7 @@ def runModel (imp : String) (fs : List String) (recs : List Rec) : Option (Res S
   | "ch.supercard", [a] => some ((accountFlag a).bind (fun a => (Supercard.run a recs).bind (fun ds => .ok (render ds))))
   | "ch.cumulus", [a] => some ((accountFlag a).bind (fun a => (Cumulus.run a recs).bind (fun ds => .ok (render ds))))
   | "ch.postfinance", [a] =>
-    some ((accountFlag a).bind (fun a => (Postfinance.run a recs).bind (fun (dbg, ds) => .ok (dbg ++ render ds))))
+    some ((accountFlag a).bind (fun a => (Postfinance.run a recs).bind (fun ds => .ok (render ds))))
   | "revolut2", [a, f] =>
     some ((accountFlag a).bind (fun a => (accountFlag f).bind (fun f => (Revolut2.run a f recs).bind (fun ds => .ok (render ds)))))
   | "revolut", [a] => some ((accountFlag a).bind (fun a => (Revolut.run a recs).bind (fun ds => .ok (render ds))))
